@@ -215,6 +215,8 @@ def check_object_attr(col, model, case, text, name, attr, val, want_terms, is_de
         return
     # concrete attribute: compare numerically with the (numeral) reference
     try:
+        if isinstance(val, ca.MX):
+            val = ca.evalf(val)  # a constant expression CasADi did not fold (e.g. 10 / 4)
         arr = np.array(ca.DM(val)) if isinstance(val, (ca.MX, ca.DM)) else np.array(val, dtype=float)
     except Exception as e:
         col.note_inconclusive(f"{case}:{name}.{attr} non-numeric object attribute {type(val).__name__}")
